@@ -521,6 +521,12 @@ package common
 //@ ufun st_nextsync_err(SyncStateI) bool
 //@ ufun st_nextsync(SyncStateI) SCViewP
 //@ ufun sc_src(ISCp) SCViewP
+// the wrapper hook: for the repository's upgradeable wrapper the held state is its BeaconState field (its one-line method is
+// under contract in package beacon); other implementations are unconstrained
+//@ func (w WrappedBeaconState) UnwrapBeaconState() r
+//@   trusted
+//@   opt noalloc
+//@   ensures isptrto(w, beacon.StandardUpgradeableBeaconState) ==> r == unboxptr(w, beacon.StandardUpgradeableBeaconState).BeaconState
 //@ func (s SyncCommitteeBeaconState) CurrentSyncCommittee() (r, err)
 //@   trusted
 //@   opt noalloc
@@ -547,7 +553,7 @@ package common
 // period and the state behind `state` has sync committees (an altair-or-later state - handed over directly, or held by the
 // repository's upgradeable wrapper, which is what ProcessSlots passes), the cached next committee becomes the current one (or the
 // current one is loaded from the state when there was none) and the next one is loaded from the state.
-//@   ensures c08_sync_direct@C08: err == nil && old(epc.NextEpoch.Epoch) % epc.Spec.EPOCHS_PER_SYNC_COMMITTEE_PERIOD == 0 && dynimpl(state, SyncCommitteeBeaconState) ==> epc.NextSyncCommittee != nil && sc_src(epc.NextSyncCommittee) == st_nextsync(state) && (old(epc.NextSyncCommittee) != nil ==> epc.CurrentSyncCommittee == old(epc.NextSyncCommittee)) && (old(epc.NextSyncCommittee) == nil ==> epc.CurrentSyncCommittee != nil && sc_src(epc.CurrentSyncCommittee) == st_cursync(state))
+//@   ensures c08_sync_direct@C08: err == nil && old(epc.NextEpoch.Epoch) % epc.Spec.EPOCHS_PER_SYNC_COMMITTEE_PERIOD == 0 && !dynimpl(state, WrappedBeaconState) && dynimpl(state, SyncCommitteeBeaconState) ==> epc.NextSyncCommittee != nil && sc_src(epc.NextSyncCommittee) == st_nextsync(state) && (old(epc.NextSyncCommittee) != nil ==> epc.CurrentSyncCommittee == old(epc.NextSyncCommittee)) && (old(epc.NextSyncCommittee) == nil ==> epc.CurrentSyncCommittee != nil && sc_src(epc.CurrentSyncCommittee) == st_cursync(state))
 //@   ensures c08_sync_wrapped@C08: err == nil && old(epc.NextEpoch.Epoch) % epc.Spec.EPOCHS_PER_SYNC_COMMITTEE_PERIOD == 0 && isptrto(state, beacon.StandardUpgradeableBeaconState) && dynimpl(old(unboxptr(state, beacon.StandardUpgradeableBeaconState).BeaconState), SyncCommitteeBeaconState) ==> epc.NextSyncCommittee != nil && sc_src(epc.NextSyncCommittee) == st_nextsync(old(unboxptr(state, beacon.StandardUpgradeableBeaconState).BeaconState)) && (old(epc.NextSyncCommittee) != nil ==> epc.CurrentSyncCommittee == old(epc.NextSyncCommittee)) && (old(epc.NextSyncCommittee) == nil ==> epc.CurrentSyncCommittee != nil && sc_src(epc.CurrentSyncCommittee) == st_cursync(old(unboxptr(state, beacon.StandardUpgradeableBeaconState).BeaconState)))
 //@   ensures c08_sync_kept@C08: err == nil && old(epc.NextEpoch.Epoch) % epc.Spec.EPOCHS_PER_SYNC_COMMITTEE_PERIOD != 0 ==> epc.CurrentSyncCommittee == old(epc.CurrentSyncCommittee) && epc.NextSyncCommittee == old(epc.NextSyncCommittee)
 //@   ensures next: err == nil ==> epc.NextEpoch != nil && epc.NextEpoch.Epoch == old(epc.NextEpoch.Epoch) + 1 && epc.Proposers != nil && epc.Proposers.Epoch == epc.CurrentEpoch.Epoch
